@@ -126,6 +126,8 @@ impl Prop for C05 {
         let m = QuadModel::new(q.clone());
         let v = QuadVal::build(c.kind, c.how, &q, c.salt);
         ctx.label(&format!("kind={}", c.kind.name()));
+        ctx.label(&format!("how={}", crate::util::variant_name(&c.how)));
+        ctx.label(&format!("content={}", crate::util::variant_name(&c.content)));
         label_quads(&m, ctx);
         ctx.nontrivial = m.n() > 256 && (0..4).filter(|&s| m.occs(s) > 0).count() >= 2;
         check_quads(&v, &m, c.plan_seed, QuadOpts { unchecked: false, budget: if ctx.thorough { 80 } else { 50 }, iterators: m.n() <= 300_000 }, ctx)
@@ -377,6 +379,10 @@ impl Prop for C13 {
         let n = model.len();
         ctx.label(match n { 0 => "n=0", 1..=127 => "n=1..127", 128..=129 => "n=128..129", 130..=254 => "n=130..254", 255..=257 => "n=255..257", 258..=510 => "n=258..510", 511..=513 => "n=511..513", _ => "n>513" });
         if n > 0 && n % 256 == 0 { ctx.label("n%256==0"); }
+        if matches!(c.start, QvbStart::BuilderFromLooseIter(..) | QvbStart::VectorFromLooseIter(..)) || c.ops.iter().any(|o| matches!(o, QvbOp::ExtendLoose(..))) { ctx.label("inexact-size-hint"); }
+        let single = |len: u32| len > 262_144;
+        if matches!(c.start, QvbStart::VectorFromPattern { len, .. } if single(len)) || c.ops.iter().any(|o| matches!(o, QvbOp::ExtendPattern { len, .. } if single(*len))) { ctx.label("single-call>2^18"); }
+        if c.ops.iter().filter(|o| matches!(o, QvbOp::Extend(..) | QvbOp::ExtendRun(..) | QvbOp::ExtendLoose(..) | QvbOp::ExtendPattern { .. })).count() >= 2 { ctx.label("extend-twice"); }
         ctx.nontrivial = kinds.len() >= 2 && outside && n > 128;
         ctx.q();
         ensure!(qv.len() == n, "QVector: len = {}, expected {n}", qv.len());
